@@ -252,6 +252,31 @@ def run(rep, tier, seed):
                         fails.append((case, f"event reported at {wrong} (t0 + {[w - t0 for w in wrong]}): the event function changes sign only at t0 + {delta}"))
                     elif delta > 1e-8 and len(te) != 1:
                         fails.append((case, f"{len(te)} events reported, the event function changes sign once, at t0 + {delta}"))
+    # ---- ballistic flight y'' = -9.8, y(0) = 0, y'(0) = 20 with two event components: the apex g0 = y' (falling) and the height
+    #      g1 = y - 20 (either direction); analytic crossings 1.7522 (g1), 2.0408 (g0), 2.3294 (g1).  With large steps both crossings
+    #      of g1 fall into the accepted step that also contains the apex: that step belongs to the recorded class D11 (several sign
+    #      changes of several components in one accepted step); with hmax small enough every step holds one crossing at most
+    import Solverz.solvers.daesolver.rodas.rodas as _R
+    ball = nDAE(csc_array(np.eye(2)), lambda t, y, p: np.array([y[1], -9.8]), lambda t, y, p: csc_array(np.array([[0.0, 1.0], [0.0, 0.0]])), {})
+    ev_ball = lambda t, y: (np.array([y[1], y[0] - 20.0]), np.array([False, False]), np.array([-1.0, 0.0]))
+    sq = np.sqrt(400.0 - 392.0)
+    cross = sorted([((20.0 - sq) / 9.8, 1), (20.0 / 9.8, 0), ((20.0 + sq) / 9.8, 1)])
+    for scheme in ("rodas4", "rodas5p"):
+        for hmax in (None, 0.2, 0.05):
+            nosc += 1
+            case = dict(problem="y'' = -9.8, y(0) = 0, y'(0) = 20; events y' (falling), y - 20 (any)", scheme=scheme, hmax=hmax, tspan=[0.0, 4.0])
+            try:
+                _R._verif_trace.clear()
+                sb = RC.quiet(Rodas, ball, [0.0, 4.0], np.array([0.0, 20.0]), Opt(scheme=scheme, event=ev_ball, **({} if hmax is None else dict(hmax=hmax))))
+                trb = list(_R._verif_trace); _R._verif_trace.clear()
+            except Exception as ex:  # noqa
+                fails.append((case, f"Rodas raised {type(ex).__name__}: {str(ex)[:80]}")); continue
+            got = [(float(a), int(b)) for a, b in zip(np.asarray(sb.te, dtype=float), sb.ie)]
+            ok_ev = len(got) == 3 and all(abs(g[0] - c[0]) < 1e-3 and g[1] == c[1] for g, c in zip(got, cross))
+            if not ok_ev:
+                crowded = any(r["err"] <= 1.0 and sum(1 for (c, _) in cross if r["t"] < c < r["t"] + r["dt"]) >= 2 for r in trb)
+                msg = f"events reported {got}, the event functions change sign at {[(round(c, 4), i) for c, i in cross]}"
+                (known if crowded else fails).append((case, msg))
     rep.cov["state_dependent_event_runs"] = nosc
     try:
         got = run_driver(lines)
